@@ -233,7 +233,7 @@ class ResolvePortRefs(ElabPass):
         # Rename it and add it to the Module namespace
         signame = self.flatname(
             segments=[f"{portref.inst.name}_{portref.portname}"],
-            avoid=module.namespace,
+            avoid=self.taken(module),
         )
         sig.name = signame
         module.add(sig)
@@ -303,7 +303,7 @@ class ResolvePortRefs(ElabPass):
             sig.width = port.width * portref.inst.n
 
         # Named no-connects keep their name, unless it is taken by something else in the module
-        sig.name = self.flatname(segments=[basename], avoid=module.namespace)
+        sig.name = self.flatname(segments=[basename], avoid=self.taken(module))
 
         # Add the new signal, and connect it to `inst`
         module.add(sig)
@@ -319,7 +319,7 @@ class ResolvePortRefs(ElabPass):
         for name, bsig in port.of.signals.items():
             sig = self.copy_port(bsig)
             sig.width = bsig.width * n
-            sig.name = self.flatname(segments=path + [name], avoid=module.namespace)
+            sig.name = self.flatname(segments=path + [name], avoid=self.taken(module))
             module.add(sig)
             anon.add(name, sig)
         for name, sub in port.of.bundles.items():
